@@ -833,8 +833,14 @@ func (fc *FnCtx) unknownCall(ci calleeInfo, in ssa.Instruction, st *State, resT 
 		}
 		if callback {
 			fc.note("%s is handed an object of this repository behind an interface and may call back into it: every heap region havocked at the call", ci.name)
-			fc.frameCheckTargets([]WTarget{{Any: true}}, ci.name, in)
-			fc.havoc(st, []WTarget{{Any: true}})
+			// (ghost variables are specification state updated only by the rules attached to
+			// call sites of verified functions; the heap is what a callback can change)
+			var ghosts []string
+			for g := range fc.eng.cs.Ghosts {
+				ghosts = append(ghosts, g)
+			}
+			fc.frameCheckTargets([]WTarget{{Any: true, Except: ghosts}}, ci.name, in)
+			fc.havoc(st, []WTarget{{Any: true, Except: ghosts}})
 		}
 	}
 	// byte slices passed to unknown code may be overwritten
